@@ -225,9 +225,22 @@ def translate_state_method(f: ast.FunctionDef):
     return s, tests, [e[1:] for e in expected], ret
 
 
+def _strip_inert(tree):
+    """remove statements that are a bare constant (docstrings, stray string / number literals): evaluating a constant has
+    no effect, so they are not part of the program's behaviour; a body that would become empty is left as it is"""
+    for node in ast.walk(tree):
+        for field in ("body", "orelse", "finalbody"):
+            body = getattr(node, field, None)
+            if isinstance(body, list) and body and all(isinstance(x, ast.stmt) for x in body):
+                kept = [x for x in body if not (isinstance(x, ast.Expr) and isinstance(x.value, ast.Constant))]
+                if kept and len(kept) != len(body):
+                    setattr(node, field, kept)
+    return tree
+
+
 def translate_parser_py(path):
     src = open(path, encoding="utf8").read()
-    tree = ast.parse(src)
+    tree = _strip_inert(ast.parse(src))
     cls = [n for n in tree.body if isinstance(n, ast.ClassDef) and n.name == "Parser"]
     need(len(cls) == 1, "class Parser not found")
     cls = cls[0]
